@@ -548,6 +548,22 @@ fn run(case: &Value) -> Value {
     REG.with(|r| match case["k"].as_str().unwrap_or("") {
         "types" => json!(r.names),
         "het_types" => json!(r.het_names),
+        "point" => {
+            // Point<u16, ()>: merge / partial_cmp panic on inequal values
+            let a = lattices::Point::<K, ()>::new(num(&case["a"]) as K);
+            let b = lattices::Point::<K, ()>::new(num(&case["b"]) as K);
+            let merged = std::panic::catch_unwind(std::panic::AssertUnwindSafe(|| {
+                let mut x = a;
+                let ch = x.merge(b);
+                (x.val, ch)
+            }));
+            let cmp = std::panic::catch_unwind(std::panic::AssertUnwindSafe(|| a.partial_cmp(&b)));
+            json!({
+                "merge": merged.ok().map(|(v, c)| json!([v, c])),
+                "cmp": cmp.ok().map(ord_json),
+                "eq": a == b, "bot": a.is_bot(), "top": a.is_top(),
+            })
+        }
         "het" => {
             let ty = case["ty"].as_str().unwrap();
             match r.het.get(ty) {
